@@ -551,7 +551,7 @@ pub fn op_memhist(cx: &mut Ctx, c: &Value) {
     for (step, op) in ops.iter().enumerate() {
         let code = arg(op, 0);
         let w = arg(op, 1);
-        let at = |what: String| format!("step {} {:?}: {}", step, op, what);
+        let at = |what: String| format!("step {} {}: {}", step, op, what);
         let mut bad: Option<String> = None;
         match code {
             0 => { // fill
@@ -688,7 +688,10 @@ pub fn op_memhist(cx: &mut Ctx, c: &Value) {
                 let (s, d) = (rd(sb, so, sl), wr(db, d0, cap));
                 let r = guarded(|| if code == 9 { zipora::string::hex_decode_to_slice(s, d).ok() } else { zipora::io::simd_encoding::decode_base64_from_buffer(s, d).ok() });
                 match (&r, &dec) {
-                    (Ok(Some(n)), Some(y)) if *n == y.len() => { sh[db][d0..d0 + y.len()].copy_from_slice(y); if !y.is_empty() { cx.sum.dist("memhist: decode of encoded text accepted"); } }
+                    (Ok(Some(n)), Some(y)) if *n == y.len() => {
+                        // only the first n bytes of the output slice are constrained; the rest of the slice handed over is scratch
+                        let cur = rd(db, d0, cap).to_vec(); sh[db][d0..d0 + cap].copy_from_slice(&cur);
+                        sh[db][d0..d0 + y.len()].copy_from_slice(y); if !y.is_empty() { cx.sum.dist("memhist: decode of encoded text accepted"); } }
                     (Ok(None), None) => { cx.sum.dist("memhist: decode refused"); let cur = rd(db, d0, cap).to_vec(); sh[db][d0..d0 + cap].copy_from_slice(&cur); } // a refused decode may leave a partial result in its own output range
                     _ => { bad = Some(at(format!("decode = {:?}, the definition gives {:?}", r, dec.as_ref().map(|y| y.len())))); let cur = rd(db, d0, cap).to_vec(); sh[db][d0..d0 + cap].copy_from_slice(&cur); }
                 }
